@@ -14,6 +14,7 @@ import Snmp.Model.Cfg
 import Snmp.Model.Fault
 import Snmp.Model.Pyth
 import Snmp.Model.Table
+import Snmp.Model.Udp
 open Lean Snmp
 
 namespace Driver
@@ -375,6 +376,32 @@ def tableRun (j : Json) : Except String Json := do
   | .error e => pure (rowsToJson (.error e))
   | .outOfFuel => throw "out of fuel"
 
+/-! ### udp.run -/
+def outcomeOfJson (j : Json) : Except String Udp.Outcome := do
+  let a ← j.getArr?
+  let arg (i : Nat) : Json := a[i]?.getD Json.null
+  match (arg 0).getStr? with
+  | .ok "reply" => pure (.reply (← (arg 1).getNat?) (← bytesOfJson (arg 2)))
+  | .ok "none" => pure .none
+  | .ok "two" => pure (.twoReplies (← (arg 1).getNat?) (← bytesOfJson (arg 2)) (← (arg 3).getNat?) (← bytesOfJson (arg 4)))
+  | .ok "oserror" => pure (.osError (← (arg 1).getNat?))
+  | .ok "lost" => pure (.lost (← (arg 1).getNat?) (← (arg 2).getBool?))
+  | _ => throw "bad outcome"
+
+def udpRun (j : Json) : Except String Json := do
+  let packet ← bytesOfJson (← j.getObjVal? "packet")
+  let outsJ ← (← j.getObjVal? "outs").getArr?
+  let outs ← outsJ.toList.mapM outcomeOfJson
+  let f := Udp.sendUdp packet (← getNat j "timeout") (← getNat j "retries") outs
+  let res : Json := match f.result with
+    | .ok b => toJson (#[toJson "ok", toJson (toHex b)] : Array Json)
+    | .error .timeout => toJson (#[toJson "error", toJson "timeout"] : Array Json)
+    | .error .osError => toJson (#[toJson "error", toJson "oserror"] : Array Json)
+    | .error .connectionLost => toJson (#[toJson "error", toJson "lost"] : Array Json)
+    | .error .unbound => toJson (#[toJson "error", toJson "unbound"] : Array Json)
+  pure (Json.mkObj [("sends", toJson f.sends.length), ("all_same", toJson (f.sends.all (· == packet))),
+    ("open", toJson (f.opened - f.closed)), ("opened", toJson f.opened), ("elapsed", toJson f.elapsed), ("result", res)])
+
 def handle (j : Json) : Except String Json := do
   let op ← j.getObjValAs? String "op"
   match op with
@@ -390,6 +417,7 @@ def handle (j : Json) : Except String Json := do
   | "ops.run" => opsRun j
   | "cfg.run" => cfgRun j
   | "py.wrap" => pyWrap j
+  | "udp.run" => udpRun j
   | "tablify" => tablifyOp j
   | "table.run" => tableRun j
   | _ => throw s!"bad-op {op}"
